@@ -78,13 +78,17 @@ class RowCollector:
                 else:
                     self._append_columns(missing)
             values = [values[name] for name in self._columns]
+        if len(values)!=len(self._columns):
+            raise Exception(f"Row has {len(values)} values but the collector has {len(self._columns)} columns:", values)
         if self._array:
+            new = []    # every cell is cast before any column changes: a refused row leaves the collector as it was
             for n, name in enumerate(self._columns):
                 data = getattr(self,name)
                 # a column declared with dtype=str starts as '<U1': the width has to follow the text that arrives
                 dtype = None if data.dtype.kind in 'US' else data.dtype
-                new = np.array(values[n],dtype=dtype)
-                setattr(self,name, np.append(data,new) )
+                new.append(np.array(values[n],dtype=dtype))
+            for n, name in enumerate(self._columns):
+                setattr(self,name, np.append(getattr(self,name),new[n]) )
         else:
             for n, name in enumerate(self._columns):
                 getattr(self,name).append(values[n])
